@@ -244,10 +244,16 @@ func (f *Formatter) formatNode(n *html.Node, buf *strings.Builder, depth int) {
 			return
 		}
 
-		// Pre blocks - preserve content whitespace and escape entities
-		if n.Data == "pre" {
+		// Pre blocks (and textarea, whose content is just as whitespace-sensitive) -
+		// preserve content whitespace and escape entities
+		if n.Data == "pre" || n.Data == "textarea" {
 			buf.WriteString(indent)
 			buf.WriteString(f.renderOpenTag(n))
+			// The parser drops one newline right after the start tag: write it back when
+			// the content itself starts with a newline, or that newline would be lost
+			if c := n.FirstChild; c != nil && c.Type == html.TextNode && strings.HasPrefix(c.Data, "\n") {
+				buf.WriteString("\n")
+			}
 			f.renderPreContent(n, buf)
 			buf.WriteString(f.renderCloseTag(n))
 			buf.WriteString("\n")
